@@ -281,7 +281,7 @@ def run(rep, tier, seed):
         refuted = {cl: "" for cl in CLAUSES}
 
     # 3. spec -> code: behaviours of the emission instance and the static cases on real assemblies
-    for fam, cfg, cap in (("replay", "AxialExpansion_emit%s.cfg" % sfx, 2000 if _SELFTEST else 45000 if thorough else 3500),
+    for fam, cfg, cap in (("replay", "AxialExpansion_emit%s.cfg" % sfx, 2000 if _SELFTEST else 40000 if thorough else 3500),
                           ("cases", "AxialExpansion_cases%s.cfg" % sfx, None)):
         eres, cat, cases = emit(cfg)
         rep.add_tlc("behaviours:" + cfg, eres)
